@@ -81,6 +81,9 @@ def digest(r, filled=True):
     d = {"suit-digest-algorithm-id": r.choice(HASHES)}
     if filled or r.random() < 0.5:
         d["suit-digest-bytes"] = rhex(r, r.choice([0, 4, 16, 32, 48, 64]))
+        if r.random() < 0.2:
+            # the same (wrong) value through the source form of the digest language; create must replace it all the same
+            d["suit-digest-bytes"] = {"raw": d["suit-digest-bytes"]}
     return d
 
 
